@@ -435,3 +435,60 @@ def r5_seed_reported(ctx, rep, R='C11.R5'):
     rep.check(ok, R, 'Shuffle.report: output.info(<message with self.seed>)',
               'the seed is not reported (or only conditionally)', key='seed:report',
               func=fi.qualname, where=ctx.where(fi, fi.node))
+    # "re-running with the reported seed reproduces the order": the number printed (with %d, i.e.
+    # truncated to an integer) must be the value the generator was seeded with, so a seed the
+    # program derives itself has to be an integer (random.Random(float) seeds from the float's hash)
+    init = ctx.model.func('shuffle.Shuffle.__init__')
+    n = 0
+    for st in ast.walk(init.node):
+        if isinstance(st, ast.Assign) and any(dotted(t) in ('self.seed',) or
+                                              (dotted(t) or '').endswith('options.shuffle_seed')
+                                              for t in st.targets):
+            v = st.value
+            if isinstance(v, ast.Name):
+                vals = [x for x in local_assignments(init.node).get(v.id, []) if isinstance(x, ast.AST)]
+            else:
+                vals = [v]
+            for x in vals:
+                if (dotted(x) or '').endswith('shuffle_seed') or dotted(x) == 'self.seed':
+                    continue                      # the user's --shuffle-seed (type=int) / a copy
+                n += 1
+                t = _int_typed(ctx, init, x)
+                if t is None:
+                    rep.undecide(R, 'seed type: %s' % norm(x), 'cannot tell whether the derived seed is an integer')
+                    continue
+                rep.check(t, R, 'derived seed %s is an integer' % norm(x),
+                          'the seed the program derives (%s) is not an integer: the report prints it '
+                          'with %%d, so the reported number is not the seed that was used and re-running '
+                          'with it gives another order' % norm(x), key='seed:int', func=init.qualname,
+                          where=ctx.where(init, st))
+    rep.floor(R, n, 1, 'derived seed expressions')
+
+
+def _int_typed(ctx, fi, e):
+    """True: the expression is an int; False: it is (or may be) a float; None: unknown"""
+    m = ctx.model
+    if isinstance(e, ast.Constant):
+        return isinstance(e.value, int) and not isinstance(e.value, bool) if not isinstance(e.value, float) else False
+    if isinstance(e, ast.Call):
+        d = m.resolve_dotted(fi.module, dotted(e.func)) if dotted(e.func) else None
+        if d in ('int', 'len', 'round', 'time.time_ns', 'time.monotonic_ns', 'time.perf_counter_ns',
+                 'os.getpid', 'hash', 'math.floor', 'math.ceil'):
+            return True if not (d == 'round' and len(e.args) > 1) else None
+        if d in ('time.time', 'time.monotonic', 'time.perf_counter', 'float', 'random.random'):
+            return False
+        return None
+    if isinstance(e, ast.BinOp):
+        a, b = _int_typed(ctx, fi, e.left), _int_typed(ctx, fi, e.right)
+        if isinstance(e.op, ast.Div):
+            return False
+        if isinstance(e.op, (ast.Add, ast.Sub, ast.Mult, ast.FloorDiv, ast.Mod, ast.BitXor, ast.BitAnd,
+                             ast.BitOr, ast.LShift, ast.RShift)):
+            if a is False or b is False:
+                return False
+            return True if a and b else None
+        if isinstance(e.op, ast.Pow):
+            return None
+    if isinstance(e, ast.UnaryOp) and isinstance(e.op, (ast.USub, ast.UAdd, ast.Invert)):
+        return _int_typed(ctx, fi, e.operand)
+    return None
